@@ -263,6 +263,10 @@ def check_generators(ctx):
 
 
 def run(ctx):
+    from .c07 import check_dagger_semantics
+
+    check_dagger_semantics(ctx, "C08-D4 per-gate-dagger")
+    ctx.floor("C08-D4", 12)
     check_inverse(ctx)
     check_controlled(ctx)
     check_generators(ctx)
